@@ -1,6 +1,8 @@
 """Evaluate a batch of programs on fresh contexts and dump typed outcomes.
 Run as a subprocess by checks/c15.py under a chosen PYTHONHASHSEED.
-usage: c15_runner.py <programs.json> <out.json> <order: fwd|rev|shuf:N> <pollute: 0|1> <twice: 0|1>"""
+usage: c15_runner.py <programs.json> <out.json> <order: fwd|rev|shuf:N|iso> <pollute: 0|1> <twice: 0|1>
+order iso: every program in a forked child of its own (a process that evaluated nothing before it): its stand-alone outcome.
+A "program" starting with //C15-API regexp [pattern, flags, subject] calls microjs.regex.RegExp directly."""
 import json, os, random, signal, sys
 
 sys.path.insert(0, os.path.dirname(os.path.dirname(os.path.abspath(__file__))))
@@ -15,7 +17,56 @@ def _alarm(sig, frm):
     raise _Timeout()
 
 
+API = "//C15-API regexp "
+
+
+def api_outcome(m, src):
+    import importlib
+    p, f, subj = json.loads(src[len(API):])
+    rxm = importlib.import_module(m.__name__ + ".regex")
+    signal.setitimer(signal.ITIMER_VIRTUAL, 30)
+    try:
+        try:
+            rx = rxm.RegExp(p, f)
+            res = ["value", engine.tv([rx.source, rx.flags, bool(rx.test(subj))])]
+        except _Timeout:
+            res = ["hang"]
+        except Exception as e:
+            res = ["exc", type(e).__name__, str(e)[:200]]
+    except _Timeout:
+        res = ["hang"]
+    finally:
+        signal.setitimer(signal.ITIMER_VIRTUAL, 0)
+    return [res, [], None]
+
+
+def isolated(m, src, pollute_first):
+    """The outcome of src in a child process forked before anything was evaluated."""
+    rfd, wfd = os.pipe()
+    pid = os.fork()
+    if pid == 0:
+        code = 1
+        try:
+            os.close(rfd)
+            data = json.dumps(outcome(m, src, pollute_first)).encode()
+            with os.fdopen(wfd, "wb") as f:
+                f.write(data)
+            code = 0
+        finally:
+            os._exit(code)
+    os.close(wfd)
+    with os.fdopen(rfd, "rb") as f:
+        data = f.read()
+    os.waitpid(pid, 0)
+    try:
+        return json.loads(data)
+    except ValueError:
+        return [["child-died"], [], None]
+
+
 def outcome(m, src, pollute_first):
+    if src.startswith(API):
+        return api_outcome(m, src)
     log = []
     if pollute_first:
         # an earlier context with a *short* time limit that compiles the shared regex literals first:
@@ -77,6 +128,9 @@ def main():
         random.Random(int(order[5:])).shuffle(idx)
     out = [None] * len(progs)
     for i in idx:
+        if order == "iso":
+            out[i] = isolated(m, progs[i], pollute)
+            continue
         o = outcome(m, progs[i], pollute)
         if twice:
             o2 = outcome(m, progs[i], pollute)
